@@ -81,9 +81,11 @@ T_SF = ('st', 'SF', [T_FU])
 T_SB = ('st', 'SB', [T_BOOL, T_int('uint16'), T_int('Level')])
 T_SN = ('st', 'SN', [T_flt('float64'), T_ptr(T_int('int')), T_ANY, T_sl(T_int('int')), T_mp(T_STR, T_int('int')), T_ar(2, T_int('int8'))])
 T_SS = ('st', 'SS', [T_S1, T_ptr(T_S1), T_flt('float32')])
-T_ISTR = ('if', 'IStr', [T_int('Level'), T_int('ULevel'), T_flt('Temp')])
+T_ISTR = ('if', 'IStr', [T_int('Level'), T_int('ULevel'), T_flt('Temp'), ('st', 'SP', [T_int('int'), T_STR])])
 T_ERR = ('if', 'error', [T_int('Errno')])
 T_E0 = ('st', 'E0', [])
+T_SP = ('st', 'SP', [T_int('int'), T_STR])
+T_S3 = ('st', 'S3', [T_STR, T_STR])
 STRUCTS = [T_S1, T_SF, T_SB, T_SN, T_SS]
 COMPOSITES = STRUCTS + [T_ar(2, T_int('int8')), T_ar(3, T_STR), T_ar(2, T_S1), T_ar(2, T_flt('float64')), T_ar(0, T_int('int')),
                         T_sl(T_int('int')), T_sl(T_STR), T_sl(T_S1), T_sl(T_ANY), T_sl(T_flt('float64')), T_sl(T_sl(T_int('uint8'))), T_sl(T_F0),
@@ -559,6 +561,77 @@ def gen_ops(tier, rng):
             types = [rng.choice(pool) for _ in range(arity[i])]
             steps.append(R(i, types) if rng.chance(2, 5) else E(i, types))
         add(sh_line(objs, steps), 'x')
+
+    # ---- lane 9: In whose alternatives are DIFFERENT values with the SAME %v rendering (strings with spaces vs split strings, nil vs
+    # empty slice/map, lossy String() methods, numeric-looking strings vs numbers, tuples whose concatenation coincides); every
+    # alternative is also an input, so the union oracle (fresh Equals(xi) per alternative) demands that each of them is accepted
+    S = lambda v, t=T_STR: g.str_term(t, v)
+    I = lambda v, n='int': g.int_term(T_int(n), v)
+    F = lambda bits, n='float64': g.flt_term(T_flt(n), bits)
+    sl = lambda t, elems: ['sl', name(T_sl(t)), '0', str(len(elems))] + [tok for e in elems for tok in e]
+    st = lambda t, fields: ['st', name(t), str(len(fields))] + [tok for f in fields for tok in f]
+    mp_si = T_mp(T_STR, T_int('int'))
+    groups = [   # (parameter type, alternatives that print alike)
+        (T_sl(T_STR), [sl(T_STR, [S('a b')]), sl(T_STR, [S('a'), S('b')]), sl(T_STR, [S('a '), S(''), S('b')])]),
+        (T_sl(T_STR), [sl(T_STR, []), ['sl', '[]string', 'nil'], sl(T_STR, [S('')])]),
+        (T_sl(T_int('int')), [['sl', '[]int', 'nil'], sl(T_int('int'), [])]),
+        (mp_si, [['mp', name(mp_si), 'nil'], ['mp', name(mp_si), '0', '0']]),
+        (T_int('Level'), [I(7, 'Level'), I(8, 'Level'), I(-1, 'Level')]),
+        (T_int('ULevel'), [I(9, 'ULevel'), I(10, 'ULevel')]),
+        (T_flt('Temp'), [F(0x3ff0000000000000, 'Temp'), F(0x3ff0a3d70a3d70a4, 'Temp')]),
+        (T_SP, [st(T_SP, [I(1), S('n')]), st(T_SP, [I(2), S('n')])]),
+        (T_ptr(T_SP), [['p', '*SP', '0'] + st(T_SP, [I(1), S('n')]), ['p', '*SP', '0'] + st(T_SP, [I(2), S('n')])]),
+        (T_ISTR, [st(T_SP, [I(1), S('unknown')]), I(7, 'Level'), st(T_SP, [I(3), S('unknown')])]),
+        (T_SB, [st(T_SB, [['b', 'bool', '1'], I(5, 'uint16'), I(7, 'Level')]), st(T_SB, [['b', 'bool', '1'], I(5, 'uint16'), I(9, 'Level')])]),
+        (T_S3, [st(T_S3, [S('a b'), S('c')]), st(T_S3, [S('a'), S('b c')])]),
+        (T_S1, [st(T_S1, [I(1), S('2 3')]), st(T_S1, [I(1), S('2 3 ')])]),
+        (T_ANY, [S('1'), I(1), I(1, 'uint8'), S('1', T_NSTR)]),
+        (T_ANY, [S('1.5'), F(0x3fc00000, 'float32'), F(0x3ff8000000000000)]),
+        (T_ANY, [S('true'), ['b', 'bool', '1'], ['b', 'NBool', '1']]),
+        (T_ANY, [S('a'), S('a', T_NSTR)]),
+        (T_ANY, [sl(T_STR, [S('x y')]), sl(T_STR, [S('x'), S('y')]), ['ar', '[2]string', '2'] + S('x') + S('y')]),
+        (T_ANY, [I(7, 'Level'), S('unknown'), I(8, 'Level')]),
+        (T_ANY, [['sl', '[]int', 'nil'], sl(T_int('int'), []), ['mp', name(mp_si), '0', '0'] if False else sl(T_STR, [])]),
+        (T_ar(3, T_STR), [['ar', '[3]string', '3'] + S('a b') + S('') + S('c'), ['ar', '[3]string', '3'] + S('a') + S('b ') + S('c')]),
+        (T_mp(T_STR, T_int('int')), [['mp', name(mp_si), '0', '1'] + S('a b') + I(1), ['mp', name(mp_si), '0', '1'] + S('a') + I(1)] if False else
+                                    [['mp', name(mp_si), '0', '0'], ['mp', name(mp_si), 'nil']]),
+    ]
+    for pt, alts in groups:
+        orders = [alts, alts[::-1]] + ([[alts[1], alts[0]] + alts[2:], alts[1:] + alts[:1]] if len(alts) > 2 else [])
+        other = rand_of(pt) if pt[0] != 'if' else rand_of(rng.choice(pt[2] or PLAIN_DYN))
+        for order in orders:
+            expr = ['in', str(len(order))]
+            for a in order:
+                expr += ['c', 'v'] + arg_tokens(a)
+            add(ev_line([pt], expr, [[a] for a in alts] + [[other]]), 'wt')
+            # the same alternatives as the first component of two-parameter tuples
+            expr = ['in', str(len(order))]
+            for a in order:
+                expr += ['t', '2', 'v'] + arg_tokens(a) + ['v'] + arg_tokens(I(5))
+            add(ev_line([pt, T_int('int')], expr, [[a, I(5)] for a in alts] + [[alts[0], I(6)]]), 'wt')
+    tuple_groups = [   # multi-argument groups whose concatenated rendering coincides
+        ([T_STR, T_STR], [[S('a'), S('bc')], [S('ab'), S('c')], [S('abc'), S('')], [S(''), S('abc')]]),
+        ([T_STR, T_STR, T_STR], [[S('a'), S('b'), S('c')], [S('ab'), S(''), S('c')], [S('a'), S('bc'), S('')]]),
+        ([T_ANY, T_STR], [[S('1'), S('2')], [S('12'), S('')], [I(1), S('2')]]),
+        ([T_int('Level'), T_STR], [[I(7, 'Level'), S('x')], [I(8, 'Level'), S('x')]]),
+        ([T_sl(T_STR), T_int('int')], [[sl(T_STR, [S('a b')]), I(1)], [sl(T_STR, [S('a'), S('b')]), I(1)]]),
+    ]
+    for pts, alts in tuple_groups:
+        for order in (alts, alts[::-1], alts[1:] + alts[:1]):
+            expr = ['in', str(len(order))]
+            for tup in order:
+                expr += ['t', str(len(pts))]
+                for a in tup:
+                    expr += ['v'] + arg_tokens(a)
+            add(ev_line(pts, expr, [list(tup) for tup in alts]), 'wt')
+    for pts, alts in tuple_groups[:2]:               # and in variadic mode: func(string, ...string)
+        for order in (alts, alts[::-1]):
+            expr = ['in', str(len(order))]
+            for tup in order:
+                expr += ['t', str(len(pts))]
+                for a in tup:
+                    expr += ['v'] + arg_tokens(a)
+            add(evv_line([T_STR], T_sl(T_STR), expr, [([tup[0]], list(tup[1:])) for tup in alts]), 'wt')
 
     # ---- lane 5: cross-typed and malformed (agreement with the model only; panics/errors are observations)
     n5 = 120 * scale
